@@ -97,7 +97,11 @@ def block_rules(m, run, fi, op):
                                                    'AX1.helper-call-one-axis', 'LY2.gather', 'LY2.scatter', 'LY2.flatten-order', 'GA1.view-is-current')):
         _block_rules_syntactic(m, run, fi, op)
     if op in ('insert', 'remove'):
-        guard_rule(m, run, fi, op)
+        n1 = len(run.obs)
+        _sd.ops2_guard(m, run, fi.name, {'insert': 'knot_insertion', 'remove': 'knot_removal'}[op], -1 if op == 'remove' else 1)
+        g_ok = all(o.ok for o in run.obs[n1:])
+        with run.corroborating(g_ok, 'OPS2.multiplicity-limit', rules=('GD2.multiplicity-guard',)):
+            guard_rule(m, run, fi, op)
 
 
 def _block_rules_syntactic(m, run, fi, op):
